@@ -92,6 +92,17 @@ def run(tier, seed, rep):
         else:
             ev.update(mass=[], m0=[0, 0], offsets=[])
         evs.append(ev)
+    # exact multinomial expansion for compositions of at most 12 atoms (the isotopologues are enumerated by TLC)
+    for i in range(2500 if thorough else 350):
+        total = rnd.randint(1, 12)
+        c = {}
+        for _ in range(total):
+            el = rnd.choice("CCCHHHHNOOSP")
+            c[el] = c.get(el, 0) + 1
+        o, p = call(lambda: pp.isotopic_distribution(dict(c)))
+        mx = max((a for _, a in p), default=1.0) if o == "ret" else 1.0
+        evs.append({"tid": f"x{i}", "k": "exact", "comp": [[k, v] for k, v in sorted(c.items())], "out": o,
+                    "peaks": [{"m": fix(m), "a8": int(round(a / mx * 1e8))} for m, a in p] if o == "ret" else []})
     for i in range(3000 if thorough else 400):
         def dist():
             return [(rnd.randint(800, 830) / 8.0, rnd.randint(1, 64) / 64.0) for _ in range(rnd.randint(0, 6))]
